@@ -91,23 +91,40 @@ proof fn lemma_pv_pair_i2(x: i16, cp: CodePage, rest: Seq<u8>, v2: PropertyValue
     lemma_le16_rt(x as u16, le16(0) + rest);
     lemma_i16_rt(x);
 }
+// the bytes of a string value, seen through the reader's accessors (no pv_is / pv_bytes here: pure sequence facts)
+proof fn lemma_lpstr_layout(e: Seq<u8>, z: Seq<u8>, rest: Seq<u8>)
+    requires e.len() < 0xffff_f000
+    ensures ({
+        let b = le32(30) + le32((e.len() + 1) as u32) + e + seq![0u8] + z + rest;
+        &&& u32_le(b) == 30
+        &&& lpstr_len(b) == e.len()
+        &&& b.len() >= 8 + e.len() + 1
+        &&& b[8 + e.len() as int] == 0
+        &&& b.subrange(8, 8 + e.len() as int) == e
+    })
+{
+    let b = le32(30) + le32((e.len() + 1) as u32) + e + seq![0u8] + z + rest;
+    let tail2 = e + seq![0u8] + z + rest;
+    let tail = le32((e.len() + 1) as u32) + tail2;
+    assert(b =~= le32(30) + tail);
+    lemma_le32_rt(30, tail);
+    lemma_le32_rt((e.len() + 1) as u32, tail2);
+    assert(b.skip(4) =~= tail);
+    assert(u32_le(b.skip(4)) == (e.len() + 1) as u32);
+    assert(lpstr_len(b) == e.len());
+    assert(b.subrange(8, 8 + e.len() as int) =~= e);
+}
 proof fn lemma_pv_pair_str(s: String, cp: CodePage, rest: Seq<u8>, v2: PropertyValue)
     requires
         pv_is(pv_bytes(PropertyValue::LpStr(s), cp) + rest, cp, v2),
         representable(cp, s@), enc_bytes(cp, s@).len() < 0xffff_f000,
     ensures v2 is LpStr && v2->LpStr_0@ == s@
 {
-    let b = pv_bytes(PropertyValue::LpStr(s), cp) + rest;
     let e = enc_bytes(cp, s@);
     let z = zeros(pad4(e.len() as int + 1) - (e.len() as int + 1));
-    let tail = le32((e.len() + 1) as u32) + e + seq![0u8] + z + rest;
-    assert(b =~= le32(30) + tail);
-    lemma_le32_rt(30, tail);
-    let tail2 = e + seq![0u8] + z + rest;
-    assert(tail =~= le32((e.len() + 1) as u32) + tail2);
-    lemma_le32_rt((e.len() + 1) as u32, tail2);
-    assert(lpstr_len(b) == e.len());
-    assert(b.subrange(8, 8 + e.len() as int) =~= e);
+    let b = pv_bytes(PropertyValue::LpStr(s), cp) + rest;
+    assert(b =~= le32(30) + le32((e.len() + 1) as u32) + e + seq![0u8] + z + rest);
+    lemma_lpstr_layout(e, z, rest);
 }
 proof fn lemma_pv_pair_time(t: Timestamp, cp: CodePage, rest: Seq<u8>, v2: PropertyValue)
     requires pv_is(pv_bytes(PropertyValue::FileTime(t), cp) + rest, cp, v2)
